@@ -6,7 +6,7 @@ import random
 
 from . import common, project as P
 
-UNITS = {"du": None, "sc": (0.0, 1.0, 8.0, 0.0), "af": (4.0, 1.0, 1.0, 0.0)}
+UNITS = {"du": None, "sc": (0.0, 1.0, 8.0, 0.0), "af": (4.0, 1.0, 1.0, 0.0), "rv": (6.0, -1.0, 1.0, 0.0)}
 
 
 def fresh_db():
@@ -15,7 +15,7 @@ def fresh_db():
 
     db = UnitDatabase()
     db.AddUnitBase("Q", "default unit", "du")
-    for u in ("sc", "af"):
+    for u in ("sc", "af", "rv"):
         db.AddUnit("Q", "unit " + u, u, MakeBaseToCustomary(*UNITS[u]), MakeCustomaryToBase(*UNITS[u]))
     # a unit with a legacy spelling ('1000ft3' is rewritten to 'Mcf'), scaled by 1/4
     db.AddUnit("Q", "unit Mcf", "Mcf", MakeBaseToCustomary(0.0, 1.0, 4.0, 0.0), MakeCustomaryToBase(0.0, 1.0, 4.0, 0.0))
@@ -253,7 +253,7 @@ def main(tier):
         rep.violation({"check": "long array verdict", "cfg": e["cfg"], "unit": e["u"], "kind": e["kind"], "xs": e["xs"][:12]}, {"observed": [e["ok"], e["rop"], e["rlim"]]})
     rep.count(evaluations=len(events), nontrivial=len(events), traces=1)
     rep.cov["exhaustive"] = thorough
-    rep.assumptions += ["units du (default), sc (x/8), af (x+4): conversions exact in binary, so amounts exactly on a limit are decidable (DESIGN 8)",
+    rep.assumptions += ["units du (default), sc (x/8), af (x+4), rv (6-x, order-reversing): conversions exact in binary, so amounts exactly on a limit are decidable (DESIGN 8)",
                         "Registering a category never yields an invalid default: decided by C14 (Well_Cats / Inv_Buildable in Registry.tla)"]
     return rep.finish(rule="16 limit configurations x 3 units x 11 values (NaN, +-inf, on / next to / away from the limits) for Scalar and "
                            "FractionScalar; x all sequences of length <= 3 (quick: 1/4 of length 3) in list / tuple / ndarray / tuple-of-tuples "
